@@ -56,6 +56,10 @@ def main():
             if prop not in mods:
                 mods[prop] = importlib.import_module('dst.props.' + prop)
             mod = mods[prop]
+            # compiled oracle formulas are not kept across jobs: a run must
+            # not depend on what ran before it in this interpreter
+            from dst import oracle as _oracle
+            _oracle._compile.cache_clear()
             if job['cmd'] == 'run':
                 trace = mod.generate(job['seed'], job['tier'])
                 r = mod.execute(trace, {'hashseed': hs})
